@@ -147,6 +147,24 @@ def gen_case(st, i, tier="quick", op=None, max_dim=None):
 
     params = draw_params(op, rng, H, W, tier)
 
+    if op in ("equal_interval", "reclassify") and rasters[0]["data"].dtype.kind == "f" and rng.random() < 0.5:
+        # boundary values: cells that sit exactly on the class edges, computed in the raster's own
+        # precision the way the NumPy path computes them (min + j * (max - min) / k)
+        d = rasters[0]["data"]
+        dt = d.dtype.type
+        lo, hi = dt(rng.choice([0.1, 0.3, 1.7, -2.3, 10.1])), dt(rng.choice([2.7, 3.3, 7.9, 12.6, 100.3]))
+        k = params.get("k") or max(len(params.get("bins", [])), 2)
+        width = (hi - lo) * 1.0 / k
+        edges = np.concatenate([[lo], np.arange(lo + width, hi + width, width)[:k], [hi]]).astype(d.dtype)
+        if op == "reclassify":
+            params["bins"] = [float(v) for v in sorted(set(edges[1:].tolist()))]
+            params["new_values"] = [float(j) for j in range(len(params["bins"]))]
+        nprs = np.random.RandomState(rng.getrandbits(32))
+        vals = edges[nprs.randint(0, len(edges), d.shape)]
+        keep = ~np.isfinite(d) & (nprs.rand(*d.shape) < 0.5)
+        d[...] = np.where(keep, d, vals)
+        d.flat[0], d.flat[-1] = lo, hi
+
     crng = st["chunks"]
     for r in rasters:
         r["chunks"] = g.chunks_for(crng, r["data"].shape)
